@@ -434,6 +434,56 @@ def hl_term(m, st, v):
     return Int.sym(nm)
 
 
+_simple_cache = {}
+
+
+def simple_table(prog):
+    """[(lo, hi, length or None)] of Encoder::simple from its L1 table"""
+    if id(prog) in _simple_cache:
+        return _simple_cache[id(prog)]
+    from . import tables
+    from .rules.lens import stream_len
+    res = tables.enc_rows(prog, 'simple')
+    out = []
+    if res is not None:
+        inst, rows, mm = res
+        for r in rows:
+            if r.kind != 'return':
+                continue
+            for lo, hi in r.st.ranges.get('x', ()):
+                out.append((lo, hi, stream_len(r.stream) if r.result == 'Ok' else None))
+    # a cell may appear with both Ok and sink-error rows: keep the Ok length
+    best = {}
+    for lo, hi, n in out:
+        if n is not None or (lo, hi) not in best:
+            if n is not None or best.get((lo, hi)) is None:
+                best[(lo, hi)] = n if n is not None else best.get((lo, hi))
+    tab = sorted((lo, hi, n) for (lo, hi), n in best.items())
+    _simple_cache[id(prog)] = tab
+    return tab
+
+
+def simple_len_at(prog, v):
+    for lo, hi, n in simple_table(prog):
+        if lo <= v <= hi and n is not None:
+            return n
+    return 1 if v < 24 else 2
+
+
+def simple_len_diff(prog):
+    """interval text of the simple values whose encoded length differs from the u8 head length"""
+    bad = []
+    for lo, hi, n in simple_table(prog):
+        if n is None:
+            continue
+        for a, b, want in ((0, 23, 1), (24, 255, 2)):
+            x, y = max(lo, a), min(hi, b)
+            if x <= y and n != want:
+                bad.append((x, y))
+    from .absint import iv_norm, iv_str
+    return iv_str(iv_norm(bad)) if bad else ''
+
+
 def _len_scalar(m, cfg, f, args, t):
     v = deref(m, cfg.st, args[0])
     if isinstance(v, Int):
@@ -492,8 +542,19 @@ def items_len(m, st, events):
         elif k in ('NULL', 'UNDEF', 'BOOL', 'BREAK', 'BEGIN'):
             total = lin_add(total, Int.const(1), 1)
         elif k == 'SIMPLE':
-            # one byte below 24, two bytes from 32 on (24..31 are refused): the same function as the u8 head length
-            total = lin_add(total, hl_term(m, st, it[1]), 1)
+            v = it[1]
+            diff = simple_len_diff(m.prog)
+            if isinstance(v, Int) and v.is_const():
+                total = lin_add(total, Int.const(simple_len_at(m.prog, v.c)), 1)
+            elif not diff:
+                # the encoder's simple() length function equals the u8 head length on every value it encodes
+                total = lin_add(total, hl_term(m, st, v), 1)
+            else:
+                nm = 'SIMPLELEN(%r)[differs from the u8 head length on %s]' % (v, diff)
+                if nm not in st.ranges:
+                    st.ranges[nm] = ((1, 2),)
+                    st.symty[nm] = 'usize'
+                total = lin_add(total, Int.sym(nm), 1)
         elif k == 'F16':
             total = lin_add(total, Int.const(3), 1)
         elif k == 'F32':
@@ -867,6 +928,14 @@ def d_skip_byte(m, cfg, f, args, t):
     return UNIT
 
 
+def d_set_position(m, cfg, f, args, t):
+    p = args[1]
+    if isinstance(p, Int) and p.is_const() and 0 <= p.c <= len(stream(cfg.st)):
+        cfg.st.extra['cur'] = p.c
+        return UNIT
+    raise Abort('set_position to a non-item position %r' % (p,))
+
+
 def decoder_overrides():
     o = {}
     o['minicbor::data::token::skip_byte'] = d_skip_byte
@@ -889,7 +958,9 @@ def decoder_overrides():
     o[DEC + 'datatype'] = d_datatype
     o[DEC + 'current'] = d_current
     o[DEC + 'read'] = d_read
-    o[DEC + 'position'] = lambda m, cfg, f, args, t: Atom('pos@%d' % cur(cfg.st), {'s': 'usize', 'k': 'int:usize'})
+    # item-level position: the index of the next item (a monotone image of the byte position)
+    o[DEC + 'position'] = lambda m, cfg, f, args, t: Int.const(cur(cfg.st))
+    o[DEC + 'set_position'] = d_set_position
     o['<minicbor::data::Type as std::cmp::PartialEq>::eq'] = type_eq
     o['<minicbor::data::Type as std::cmp::PartialEq>::ne'] = type_eq
     o['minicbor::decode::Decode::decode'] = dec_leaf
